@@ -10,6 +10,7 @@
   wrong shape are *inside* the domain (both machines panic).
 -/
 import Pulsar.Proofs.ReflectCor
+import Pulsar.Proofs.ReflectCodec
 namespace Pulsar
 
 /-- One step: the outputs are equivalent and the abstract states agree. Covers every op of the protocol at
@@ -219,12 +220,69 @@ theorem C08_mutable_view_writes_through :
 
 /-- What is left to the codec properties: on well-typed values with valid UTF-8 strings the outputs of
     `size`/`enc` agree as well. This is C02 (`implMarshal = specEncode`) composed with C05
-    (`specEncode` does not depend on the representation) and the Size lemma of C04; it is stated here
-    for completeness and not proved in this file. -/
+    (`specEncode` does not depend on the representation) and the Size lemma of C04. Proved below
+    (`C08_codec_ops_refine`), now that C02/C04/C05 exist. -/
 def C08_codec_statement : Prop :=
   ∀ (S : Schema), S.WF = true → ∀ (n i : Nat) (s : Val), i < S.msgs.length → msgOK S false n i s = true →
     utf8OK S n i s = true → ∀ (o : ROp), o.usesCodec = true →
       (Reflect.step S i s (.r o)).2 = (SpecReflect.step S i (abs S n i s) (.r o)).2
+
+
+/-! ### The codec ops, and every op at once
+
+  The SPEC machine's `enc` is `proto.Marshal` of the reference implementation: it *fails* (`err`) on a
+  proto3 string that is not valid UTF-8, whereas the generated marshaller does not validate. Hence the
+  hypothesis `utf8OK` on the state. `Op.utf8` (Proofs/ReflectCodec) says that the strings a write op stores
+  are valid UTF-8; such ops preserve `utf8OK`, so the hypothesis is an invariant of histories. -/
+
+/-- `C08_codec_statement` holds: at the root, `size` and `enc` give the same output on the Go struct and on
+    the abstract message (well-formed schema, well-typed state, valid UTF-8). -/
+theorem C08_codec_ops_refine : C08_codec_statement := by
+  intro S hS n i s hi hs hu o hc
+  simp only [step_read, SpecReflect.step, Op.isWrite, Bool.false_eq_true, if_false, SpecReflect.stepR]
+  exact (rc_read_codec_msg S hS n i s hi hs hu o hc).symm
+
+/-- One step of a codec op at any path (`in`/`at`/`mv` prefixes; the target may be an unpopulated message:
+    `0` / no bytes on both sides): outputs equivalent, states related. -/
+theorem C08_step_refines_codec (S : Schema) (hS : S.WF = true) (n i : Nat) (s : Val) (op : Op)
+    (hi : i < S.msgs.length) (hs : msgOK S false n i s = true) (hu : utf8OK S n i s = true)
+    (hop : Op.ok S n i op = true) (hc : op.usesCodec = true) :
+    OutEq (Reflect.step S i s op).2 (SpecReflect.step S i (abs S n i s) (Op.abs S n i op)).2 ∧
+    abs S n i (Reflect.step S i s op).1 = (SpecReflect.step S i (abs S n i s) (Op.abs S n i op)).1 :=
+  let h := rc_step_refines_all S hS n i s op hi hs hu hop (rc_utf8_of_read S op n i (rc_usesCodec_isRead op hc))
+  ⟨h.1, h.2.1⟩
+
+/-- One step, **every** op of the protocol (codec or not, any path): outputs equivalent, abstract states
+    equal. Compared with `C08_step_refines` the hypothesis `usesCodec = false` is traded for: well-formed
+    schema, type index in range, valid UTF-8 in the state (needed by `enc` only) and in the op's arguments
+    (needed only to keep the invariant; see `C08_step_preserves_utf8`). -/
+theorem C08_step_refines_all (S : Schema) (hS : S.WF = true) (n i : Nat) (s : Val) (op : Op)
+    (hi : i < S.msgs.length) (hs : msgOK S false n i s = true) (hu : utf8OK S n i s = true)
+    (hop : Op.ok S n i op = true) :
+    OutEq (Reflect.step S i s op).2 (SpecReflect.step S i (abs S n i s) (Op.abs S n i op)).2 ∧
+    abs S n i (Reflect.step S i s op).1 = (SpecReflect.step S i (abs S n i s) (Op.abs S n i op)).1 := by
+  refine ⟨?_, C08_step_state S n i s op hs hop⟩
+  cases hc : op.usesCodec with
+  | false => exact (C08_step_refines S n i s op hs hop hc).1
+  | true => exact (C08_step_refines_codec S hS n i s op hi hs hu hop hc).1
+
+/-- The UTF-8 invariant: an op whose string arguments are valid UTF-8 keeps every string of the state valid
+    (no typing hypothesis needed). -/
+theorem C08_step_preserves_utf8 (S : Schema) (n i : Nat) (s : Val) (op : Op)
+    (hu : utf8OK S n i s = true) (hop : Op.utf8 S n i op = true) :
+    utf8OK S n i (Reflect.step S i s op).1 = true :=
+  rc_step_utf8 S n i s op hu hop
+
+/-- Histories over every op: output sequences pointwise equivalent, final abstract states equal. -/
+theorem C08_history_refines_all (S : Schema) (hS : S.WF = true) (n i : Nat) (s : Val) (ops : List Op)
+    (hi : i < S.msgs.length) (hs : msgOK S false n i s = true) (hu : utf8OK S n i s = true)
+    (hops : ∀ op ∈ ops, Op.ok S n i op = true ∧ Op.utf8 S n i op = true) :
+    OutsEq (Reflect.run S i s ops).2 (SpecReflect.run S i (abs S n i s) (ops.map (Op.abs S n i))).2 ∧
+    abs S n i (Reflect.run S i s ops).1 = (SpecReflect.run S i (abs S n i s) (ops.map (Op.abs S n i))).1 := by
+  obtain ⟨h1, h2, _⟩ := rc_run_refines_all S hS n i hi ops s [] hs hu hops
+  unfold Reflect.run SpecReflect.run
+  rw [← h1]
+  exact ⟨OutsEq_refl _, h2⟩
 
 /-! ### Non-vacuity: a testpb.A-like schema and a non-trivial state -/
 
@@ -254,7 +312,7 @@ def histA : List Op :=
    .in 8 (.w (.set 0 (.blob false [121]))), .w (.mset 6 (.blob false [99]) (msgB [])), .r (.mrange 6),
    .mv 6 (.blob false [97]) (.w (.set 0 (.blob false [65]))), .at 7 0 (.r (.get 0)), .w (.lappm 7),
    .r (.get 10), .w (.mut 10), .r (.get 10), .w (.ltrunc 7 5), .r .range, .w (.set 10 (.list false [])),
-   .in 5 (.w (.mut 0))]
+   .in 5 (.w (.mut 0)), .r (.getter 6), .r (.getter 7), .at 7 0 (.r (.getter 0)), .in 11 (.r (.getter 0)), .r (.getter 9)]
 
 example : ∀ op ∈ histA, Op.ok schemaA8 3 0 op = true ∧ op.usesCodec = false := by decide
 
@@ -273,11 +331,52 @@ example : (Reflect.step schemaA8 0 stateA (.r (.get 10))).2 = .listv false 0 := 
 example : (Reflect.step schemaA8 0 stateA (.r (.mrange 6))).2
     = .keys [.blob false [97], .blob false [98]] := rfl
 example : (Reflect.step schemaA8 0 stateA (.r .range)).2 = .fields [2, 5, 6, 7, 9] := rfl
+-- the generated getters are ops of both machines (SPEC: `Get` rendered in getter tokens)
+example : (Reflect.step schemaA8 0 stateA (.r (.getter 6))).2 = .gmap 2 := rfl
+example : (SpecReflect.step schemaA8 0 (abs schemaA8 3 0 stateA) (.r (.getter 6))).2 = .gmap 2 := rfl
 example : (Reflect.step schemaA8 0 stateA (.w (.set 10 (.list false [])))).2 = .panic := rfl
 example : (SpecReflect.step schemaA8 0 (abs schemaA8 3 0 stateA) (.w (.set 10 (.list false [])))).2 = .panic := rfl
 -- Clear of the inactive member leaves ONEOF_STRING set (the fixed template)
 example : Reflect.step schemaA8 0 stateA (.w (.clear 8)) = (stateA, .ok) :=
   C08_clear_inactive_member_noop schemaA8 0 _ _ 8 0 _ rfl rfl rfl
+
+-- the codec ops on this state: the hypotheses of `C08_history_refines_all` hold …
+theorem stateA_utf8 : utf8OK schemaA8 3 0 stateA = true := by
+  simp [utf8OK, utf8Slot, utf8Elem, schemaA8, stateA, msgB, Schema.msg, Val.slots, Val.elems, Val.getBlob, Val.key,
+    Val.value, Val.isNone, utf8Valid]
+
+/-- `histA` extended with codec ops at the root, in a nested message, in a map value and on an unset member -/
+def histA' : List Op :=
+  histA ++ [.r .size, .r .enc, .in 5 (.r .enc), .mv 6 (.blob false [97]) (.r .size), .in 11 (.r .enc),
+    .w (.set 3 (.blob true [195, 169])), .r .enc]
+
+example : ∀ op ∈ histA', Op.ok schemaA8 3 0 op = true := by decide
+
+theorem histA'_utf8 : ∀ op ∈ histA', Op.utf8 schemaA8 3 0 op = true := by
+  simp [histA', histA, Op.utf8, WOp.utf8, setArgUtf8, keyUtf8, utf8OK, utf8Slot, utf8Elem, schemaA8, msgB, Schema.msg,
+    Val.slots, Val.elems, Val.getBlob, Val.isNone, utf8Valid, Op.isWrite]
+
+example :
+    OutsEq (Reflect.run schemaA8 0 stateA histA').2
+      (SpecReflect.run schemaA8 0 (abs schemaA8 3 0 stateA) (histA'.map (Op.abs schemaA8 3 0))).2 ∧
+    abs schemaA8 3 0 (Reflect.run schemaA8 0 stateA histA').1
+      = (SpecReflect.run schemaA8 0 (abs schemaA8 3 0 stateA) (histA'.map (Op.abs schemaA8 3 0))).1 :=
+  C08_history_refines_all schemaA8 (by decide) 3 0 stateA histA' (by decide) (by decide) stateA_utf8
+    (fun op h => ⟨by revert op; decide, histA'_utf8 op h⟩)
+
+-- … and the UTF-8 hypothesis cannot be dropped: with an invalid string the generated marshaller emits the
+-- bytes while the reference one fails
+example : ∃ bs, (Reflect.step schemaA8 1 (msgB [255]) (.r .enc)).2 = .enc (.ok bs) := by
+  have h := (marshal_ok (S := schemaA8) (by decide) Reflect.mopts (fun kk es => sortEntries_perm kk es)
+    ((msgB [255]).depth + 1) 1 (msgB [255]) (by decide) (by decide)).1
+  simp only [step_read, Reflect.read, h]
+  exact ⟨_, rfl⟩
+example : (SpecReflect.step schemaA8 1 (abs schemaA8 1 1 (msgB [255])) (.r .enc)).2 = .enc (.err .utf8) := by
+  have h : utf8OK schemaA8 ((abs schemaA8 1 1 (msgB [255])).depth + 1) 1 (abs schemaA8 1 1 (msgB [255])) = false := by
+    simp [utf8OK, utf8Slot, utf8Elem, schemaA8, msgB, Schema.msg, Val.slots, Val.getBlob, utf8Valid, abs, repNorm,
+      repSlot, repElem]
+  simp only [SpecReflect.step, Op.isWrite, Bool.false_eq_true, if_false, SpecReflect.stepR, SpecReflect.read,
+    SpecReflect.encOf, h]
 
 end Pulsar
 
@@ -292,3 +391,8 @@ end Pulsar
 #print axioms Pulsar.C08_mutable_view_writes_through_list
 #print axioms Pulsar.C08_mutable_view_writes_through_map
 #print axioms Pulsar.C08_mutable_view_writes_through
+#print axioms Pulsar.C08_codec_ops_refine
+#print axioms Pulsar.C08_step_refines_codec
+#print axioms Pulsar.C08_step_refines_all
+#print axioms Pulsar.C08_step_preserves_utf8
+#print axioms Pulsar.C08_history_refines_all
